@@ -1,6 +1,7 @@
 """Code transform that instruments probed functions."""
 
 import ast
+import dis
 import inspect
 import re
 import sys
@@ -186,6 +187,36 @@ class _Mangler(NodeTransformer):
     def visit_ClassDef(self, node):
         # A nested class mangles with its own name
         return node
+
+
+def _python_scoping(code):
+    """Classify the names of a function like Python itself did.
+
+    Returns a ``{name: provenance}`` dictionary made from the code object,
+    where the provenance is "argument", "body", "closure" or "external".
+    """
+    nparams = (
+        code.co_argcount
+        + code.co_kwonlyargcount
+        + bool(code.co_flags & inspect.CO_VARARGS)
+        + bool(code.co_flags & inspect.CO_VARKEYWORDS)
+    )
+    scoping = {}
+    for instr in dis.get_instructions(code):
+        if instr.opname in (
+            "LOAD_GLOBAL",
+            "STORE_GLOBAL",
+            "DELETE_GLOBAL",
+            "LOAD_NAME",
+        ):
+            scoping[instr.argval] = "external"
+    for name in (*code.co_varnames[nparams:], *code.co_cellvars):
+        scoping[name] = "body"
+    for name in code.co_varnames[:nparams]:
+        scoping[name] = "argument"
+    for name in code.co_freevars:
+        scoping[name] = "closure"
+    return scoping
 
 
 def _find_declarations(stmts):
@@ -1519,12 +1550,14 @@ def transform(fn, proceed, to_instrument=True, set_conformer=True):
         glb[fname] = save
 
     all_vars = transformer.used | transformer.assigned
+    # What each name is has been decided by Python when it compiled fn
+    scoping = _python_scoping(fn.__code__)
 
     info = {
         k: {
             "name": k,
             "annotation": transformer.annotated.get(k, ABSENT),
-            "provenance": transformer.provenance.get(k),
+            "provenance": scoping.get(k, transformer.provenance.get(k)),
             "doc": transformer.vardoc.get(k),
             "location": (
                 filename,
